@@ -45,7 +45,7 @@ def render_history(h, variant=0):
     depth = 0
     fn = 0
     stack = []
-    kinds = ["fn", "class", "lfor"]
+    kinds = ["fn", "class", "lfor", "lambda"]
     for i, e in enumerate(h, 1):
         ev, n = e["ev"], e["n"]
         if ev == "def":
@@ -54,12 +54,13 @@ def render_history(h, variant=0):
             out.append(REQ_TEXT[n])
         elif ev == "enter":
             fn += 1
-            kind = kinds[(variant + fn) % 3] if variant else "fn"
+            kind = kinds[(variant + fn) % 4] if variant else "fn"
             stack.append((fn, kind))
-            out.append({"fn": f"(defn f{fn} []", "class": f"(defclass C{fn} []", "lfor": f"(lfor hyv-q{fn} [0] (do"}[kind])
+            out.append({"fn": f"(defn f{fn} []", "class": f"(defclass C{fn} []", "lfor": f"(lfor hyv-q{fn} [0] (do",
+                        "lambda": "((fn []"}[kind])
         elif ev == "exit":
             k, kind = stack.pop()
-            out.append({"fn": f"None) (f{k})", "class": "None)", "lfor": "None))"}[kind])
+            out.append({"fn": f"None) (f{k})", "class": "None)", "lfor": "None))", "lambda": "None))"}[kind])
         elif ev == "pragma":
             out.append("(pragma :warn-on-core-shadow False)")
         elif ev == "call":
@@ -152,7 +153,7 @@ def main_c35(run):
     nrun = 0
     for hi, rec in enumerate(hists + nest + sim):
         h = rec["h"]
-        variant = hi % 4          # a quarter all-function, the rest mixing functions, class bodies and comprehensions
+        variant = hi % 5          # a fifth all-function, the rest mixing functions, class bodies, comprehensions and anonymous functions
         text = render_history(h, variant)
         key = json.dumps([[e["ev"], e["n"]] for e in h] + ([f"scopes:{variant}"] if variant else []))
         R, warned, err = run_history(text, f"hyv_macro_{hi}")
@@ -181,7 +182,8 @@ def main_c35(run):
     run.sample({"history": [[e["ev"], e["n"], e["res"]] for e in sim[0]["h"]] if sim else None,
                 "text": render_history(sim[0]["h"]) if sim else None})
     return run.finish("model_checking",
-                      "histories of defmacro / require (6 shapes, with and without _hy_export_macros) / function scopes / "
+                      "histories of defmacro / require (6 shapes, with and without _hy_export_macros) / scopes (defn, class body, "
+                      "comprehension, anonymous fn) / "
                       "pragma / macro calls / hy.eval with a macros argument, also of code that defines local macros itself: every history of %d events exhaustively and "
                       "7-event histories by TLC simulation; each is rendered as a module, compiled and run; every call's "
                       "expansion tag and the core-shadow warnings are compared with the spec" % n,
@@ -263,6 +265,48 @@ def main_c36(run):
                     break
         finally:
             sys.modules.pop(name, None)
+    # ResultMacroLeftAlone for every macro that yields a compiler result, not only `if`: whatever such a macro
+    # returns (a Result, a bare AST node), hy.macroexpand and hy.macroexpand-1 hand back the form unchanged --
+    # given directly, and at the end of a chain of user macros
+    import hy.core.result_macros as rm
+    import ast as _ast
+    heads = sorted(hy.unmangle(k) for k in rm._hy_macros)
+    shapes = ["({h})", "({h} x)", "({h} x 1)", "({h} [x] 1)", "({h} [x [1]] x)", "({h} x [] 1)", "({h} 1 2 3)"]
+    chain_mod = types.ModuleType("hyv_expand_chain")
+    sys.modules["hyv_expand_chain"] = chain_mod
+    nres = 0
+    try:
+        for h in heads:
+            for sh in shapes:
+                text = sh.format(h=h)
+                try:
+                    src = hy.read(text)
+                except Exception:
+                    continue
+                for via in ("direct", "chain"):
+                    form = src
+                    if via == "chain":
+                        # (hyv-wrap) expands to the form
+                        chain_mod.__dict__.setdefault("_hy_macros", {})["hyv_wrap"] = (lambda f: (lambda: copy.deepcopy(f)))(src)
+                        form = hy.read("(hyv-wrap)")
+                    for fn_name, fn in (("macroexpand", hy.macroexpand), ("macroexpand-1", hy.macroexpand_1)):
+                        try:
+                            got = fn(copy.deepcopy(form), module=chain_mod)
+                        except Exception:
+                            continue      # the form is rejected (by the macro's pattern, or it runs user code): not an expansion
+                        nres += 1
+                        run.case(("result-macro", text, via, fn_name))
+                        if isinstance(got, _ast.AST) or not isinstance(got, hy.models.Object):
+                            run.violation(f"result-macro:{text}:{via}:{fn_name}", f"hy.{fn_name} of {text} ({via}) returned "
+                                          f"{type(got).__name__} {got!r}, not a model", {"form": text})
+                        elif model_diff(hy.as_model(src), hy.as_model(got)):
+                            run.violation(f"result-macro:{text}:{via}:{fn_name}", f"hy.{fn_name} of {text} ({via}) changed a form "
+                                          f"whose head yields a compiler result: {hy.repr(got)}", {"form": text})
+                        else:
+                            run.cov["traces_validated_against_impl"] += 1
+    finally:
+        sys.modules.pop("hyv_expand_chain", None)
+    run.cov["result_macro_forms"] = nres
     # local macros are invisible unless passed: (local-macros)
     text = "(defn g [] (defmacro lm [x] `(f ~x)) [(hy.macroexpand-1 '(lm 7)) (hy.macroexpand-1 '(lm 7) :macros (local-macros))]) (defn f [x] x) (setv out (g))"
     mod = types.ModuleType("hyv_expand_local")
@@ -315,7 +359,8 @@ def main_c37(run):
     rng = random.Random(run.seed)
     q = run.quick
     r = tlc.run("HyReaderMacros", tlc.cfg(constants={"MaxA": 3 if q else 3, "MaxB": 3},
-                                          invariants=["UseNeedsEarlierDef", "ModulesIsolated", "StrictAlternation", "Export"]),
+                                          invariants=["UseNeedsEarlierDef", "ModulesIsolated", "StrictAlternation",
+                                                      "FreshReaderStartsEmpty", "Export"]),
                 run.work, workers=16, timeout=3000, label="rm")
     if r.violated:
         raise MachineryError(f"HyReaderMacros: {r.violated} violated on the specification")
@@ -418,6 +463,33 @@ def main_c37(run):
                     ok = False
                     run.violation("B:" + key, f"module B stream {c['sb']} after A {c['sa']}: OUT={mb.OUT}, expected "
                                   f"{expected_out(wb)}", {"case": c, "text": tb})
+            # route 4: continuation streams read by a fresh reader and evaluated in module B
+            if ea is None and wa["err"] == 0 and c["rb"]["err"] == 0 and sys.modules.get(bn) is not None and k % (6 if q else 1) == 0:
+                mbx = sys.modules[bn]
+                for ct in c["cont"]:
+                    tc = render_stream(ct["sc"], 300, an)
+                    saved = mbx.OUT
+                    rdr = HyReader()
+                    err_at = 0
+                    try:
+                        # (read and evaluate one top-level form at a time, as the file importer and the REPL do)
+                        for form in hy.read_many(tc, filename="<cont>", reader=rdr):
+                            hy.eval(form, mbx.__dict__, module=mbx)
+                    except LexException:
+                        err_at = -1
+                    except Exception as e:
+                        err_at = -2 if not isinstance(e, HyRequireError) else -1
+                    got_out = mbx.OUT
+                    mbx.OUT = saved
+                    wc = ct["rc"]
+                    if (err_at != 0) != (wc["err"] != 0) or (err_at == 0 and got_out != expected_out(wc)) or err_at == -2:
+                        ok = False
+                        run.violation("cont:" + key + json.dumps(ct["sc"]), f"stream {ct['sc']} read by a fresh reader into module B "
+                                      f"(B: {c['sb']}, A: {c['sa']}): {'error' if err_at else 'OUT=' + str(got_out)}, expected "
+                                      f"{'an error at item %d' % wc['err'] if wc['err'] else expected_out(wc)}",
+                                      {"case": c, "cont": ct, "text": tc})
+                    if HyReader._current_reader is not None:
+                        HyReader._current_reader = None
             # route 3: fresh copies, B imported first, so that A is read and compiled while B is being compiled
             # (by B's require); both modules must behave exactly as when imported one after the other
             if wa["err"] == 0 and any(k_ == "req" for k_, _n in c["sb"]):
